@@ -46,6 +46,7 @@ type monitor struct {
 	quiet       bool
 	checks      int
 	removedLive map[int64]bool
+	edits       int // version edits applied so far (all manifests)
 }
 
 func newMonitor(r *runner, ucmp func(a, b []byte) int) *monitor {
@@ -138,6 +139,7 @@ func (m *monitor) poll() {
 				continue
 			}
 			m.apply(st, &e)
+			m.edits++
 			if !m.quiet && fd == d.Meta() {
 				m.checkVersion(st, fmt.Sprintf("edit #%d in %s", st.nrec, fd))
 			}
